@@ -37,6 +37,9 @@ pub enum SOp {
     Chunk { cmds: Vec<Cmd> },
     Advance { ms: u64 },
     Cleanup,
+    /// C16: a second instance of the same engine ("leader") applies everything this node has applied plus `extra`,
+    /// generates a snapshot at that boundary, and this node installs it (apply_snapshot_from_file)
+    Install { extra: Vec<Cmd> },
 }
 
 #[derive(Serialize, Deserialize, Clone, Debug, PartialEq)]
@@ -81,7 +84,7 @@ fn val(v: u8) -> Bytes {
 pub fn gen_plan(seed: u64, mode: &str) -> SmPlan {
     let mut r = Rng::new(seed ^ 0x53_4D);
     let engine = (*r.pick(&["file", "rocksdb"])).to_string();
-    let crash_mode = mode == "c15";
+    let crash_mode = mode == "c15" || mode == "c16";
     let n_seg = if crash_mode { r.range(2, 4) } else { r.range(1, 3) };
     let mut segments = Vec::new();
     for s in 0..n_seg {
@@ -89,6 +92,21 @@ pub fn gen_plan(seed: u64, mode: &str) -> SmPlan {
         for _ in 0..r.range(1, if crash_mode { 5 } else { 7 }) {
             let roll = r.below(100);
             let ttl_mode = mode == "c23";
+            if mode == "c16" && roll >= 86 {
+                let mut extra = Vec::new();
+                for _ in 0..r.range(0, 5) {
+                    let k = r.below(3) as u8;
+                    let v = r.below(5) as u8;
+                    extra.push(match r.below(100) {
+                        0..=39 => Cmd::Put { k, v },
+                        40..=49 => Cmd::PutTtl { k, v, ttl_s: r.range(1, 4) },
+                        50..=69 => Cmd::Del { k },
+                        _ => Cmd::Cas { k, exp: if r.chance(1, 4) { 255 } else { r.below(5) as u8 }, v },
+                    });
+                }
+                ops.push(SOp::Install { extra });
+                continue;
+            }
             if crash_mode && roll >= 60 && roll < 85 {
                 // long enough for the File engine's time-based checkpoint to be due at the next apply
                 ops.push(SOp::Advance { ms: 11000 });
@@ -233,6 +251,11 @@ fn wall_ms() -> u64 {
     crate::sm::wall_ms()
 }
 
+thread_local! {
+    /// crash points are not counted while the child builds the snapshot-producing "leader" instance
+    static BUILDING_LEADER: std::cell::Cell<bool> = const { std::cell::Cell::new(false) };
+}
+
 /// Child: execute one segment against the directory; abort on Crash.
 pub fn child_main(kv: &HashMap<String, String>) -> i32 {
     let kv = kv.clone();
@@ -246,6 +269,8 @@ fn child_thread(kv: &HashMap<String, String>) {
     let offset_ms: i64 = kv["wall-offset-ms"].parse().unwrap();
     let dir = PathBuf::from(&kv["dir"]);
     let report_path = PathBuf::from(&kv["report"]);
+    // what the node has applied before this segment: (command, wall ms of its application)
+    let history: Vec<(Cmd, u64)> = kv.get("history").and_then(|p| std::fs::read_to_string(p).ok()).and_then(|s| serde_json::from_str(&s).ok()).unwrap_or_default();
     crate::seams::enter_sim_thread(plan.seed ^ seg as u64);
     crate::seams::WALL_JUMP_NS.store(offset_ms * 1_000_000, std::sync::atomic::Ordering::SeqCst);
     let rt = tokio::runtime::Builder::new_current_thread().enable_time().start_paused(true).build().unwrap();
@@ -256,7 +281,7 @@ fn child_thread(kv: &HashMap<String, String>) {
         let crash_path = PathBuf::from(format!("{}.crash", kv["report"]));
         d_engine_core::verif::set_hook(std::rc::Rc::new(move |ev| {
             if let d_engine_core::verif::Event::Point { tag, .. } = ev {
-                if tag.starts_with("fsm_") || tag.starts_with("rsm_") {
+                if (tag.starts_with("fsm_") || tag.starts_with("rsm_")) && !BUILDING_LEADER.with(|b| b.get()) {
                     seen.set(seen.get() + 1);
                     if seen.get() == n {
                         let _ = std::fs::write(&crash_path, tag);
@@ -272,6 +297,7 @@ fn child_thread(kv: &HashMap<String, String>) {
         rep.open = json!({"last_applied": sm.last_applied().index, "wall_ms": wall_ms(),
             "state": dump(&sm).iter().map(|(k, v)| (String::from_utf8_lossy(k).to_string(), String::from_utf8_lossy(v).to_string())).collect::<BTreeMap<String, String>>()});
         let mut next = first_index;
+        let mut applied_here: Vec<(Cmd, u64)> = Vec::new();
         let save = |rep: &ChildReport| std::fs::write(&report_path, serde_json::to_string(rep).unwrap()).unwrap();
         save(&rep);
         for op in segment.ops.iter() {
@@ -282,6 +308,7 @@ fn child_thread(kv: &HashMap<String, String>) {
                     let t = wall_ms();
                     let res = sm.apply_chunk(&entries).await;
                     next += cmds.len() as u64;
+                    applied_here.extend(cmds.iter().map(|c| (c.clone(), t)));
                     let flags: Option<Vec<bool>> = res.as_ref().ok().map(|r| r.iter().map(|x| x.succeeded).collect());
                     let idxs: Option<Vec<u64>> = res.as_ref().ok().map(|r| r.iter().map(|x| x.index).collect());
                     let state: BTreeMap<String, String> =
@@ -301,6 +328,67 @@ fn child_thread(kv: &HashMap<String, String>) {
                 SOp::Advance { ms } => {
                     tokio::time::sleep(Duration::from_millis(*ms)).await;
                     rep.ops.push(json!({"op": "advance", "wall_ms": wall_ms()}));
+                }
+                SOp::Install { extra } => {
+                    let t = wall_ms();
+                    let opi = rep.ops.len();
+                    let ldir = dir.join(format!("leader-{seg}-{opi}"));
+                    let snapdir = dir.join(format!("snap-{seg}-{opi}"));
+                    let _ = std::fs::remove_dir_all(&ldir);
+                    let _ = std::fs::remove_dir_all(&snapdir);
+                    std::fs::create_dir_all(&ldir).unwrap();
+                    let all: Vec<(Cmd, u64)> = history.iter().cloned().chain(applied_here.iter().cloned()).chain(extra.iter().map(|c| (c.clone(), t))).collect();
+                    let boundary = all.len() as u64;
+                    // the leader applied every command at the wall time the node applied it (TTL deadlines are absolute)
+                    BUILDING_LEADER.with(|b| b.set(true));
+                    let saved_jump = crate::seams::WALL_JUMP_NS.load(std::sync::atomic::Ordering::SeqCst);
+                    let leader = open_sm(&engine, &ldir).await;
+                    let mut i = 0usize;
+                    let mut lead_ok = true;
+                    while i < all.len() {
+                        let tt = all[i].1;
+                        let mut j = i;
+                        while j < all.len() && all[j].1 == tt && j - i < 6 {
+                            j += 1;
+                        }
+                        let now = wall_ms();
+                        let delta_ms = tt as i64 - now as i64;
+                        crate::seams::WALL_JUMP_NS.fetch_add(delta_ms * 1_000_000, std::sync::atomic::Ordering::SeqCst);
+                        let entries: Vec<ApplyEntry> =
+                            (i..j).map(|x| ApplyEntry { index: x as u64 + 1, term: 1, command: to_command(&all[x].0) }).collect();
+                        lead_ok &= leader.apply_chunk(&entries).await.is_ok();
+                        i = j;
+                    }
+                    let now = wall_ms();
+                    crate::seams::WALL_JUMP_NS.fetch_add((t as i64 - now as i64) * 1_000_000, std::sync::atomic::Ordering::SeqCst);
+                    let _ = saved_jump;
+                    let li = LogId { index: boundary, term: 1 };
+                    let sum = leader.generate_snapshot_data(snapdir.clone(), li).await;
+                    let _ = leader.stop();
+                    drop(leader);
+                    BUILDING_LEADER.with(|b| b.set(false));
+                    let mut ok = false;
+                    let mut err = String::new();
+                    match sum {
+                        Ok(checksum) if lead_ok => {
+                            let meta = d_engine_proto::server::storage::SnapshotMetadata { last_included: Some(li), checksum };
+                            match sm.apply_snapshot_from_file(&meta, snapdir.clone()).await {
+                                Ok(()) => ok = true,
+                                Err(e) => err = format!("install: {e:?}"),
+                            }
+                        }
+                        Ok(_) => err = "leader apply failed".into(),
+                        Err(e) => err = format!("generate: {e:?}"),
+                    }
+                    if ok {
+                        next = boundary + 1;
+                        applied_here.extend(extra.iter().map(|c| (c.clone(), t)));
+                    }
+                    let state: BTreeMap<String, String> =
+                        dump(&sm).iter().map(|(k, v)| (String::from_utf8_lossy(k).to_string(), String::from_utf8_lossy(v).to_string())).collect();
+                    rep.ops.push(json!({"op": "install", "wall_ms": t, "ok": ok, "error": err, "boundary": boundary, "state": state,
+                                        "last_applied": sm.last_applied().index,
+                                        "snapshot_meta_index": sm.snapshot_metadata().and_then(|m| m.last_included).map(|l| l.index)}));
                 }
                 SOp::Cleanup => {
                     let t = wall_ms();
@@ -327,7 +415,7 @@ fn child_thread(kv: &HashMap<String, String>) {
 
 // ───────────────────────── parent ─────────────────────────
 
-fn spawn_child(plan_path: &Path, seg: usize, first_index: u64, offset_ms: u64, dir: &Path, report: &Path) -> bool {
+fn spawn_child(plan_path: &Path, seg: usize, first_index: u64, offset_ms: u64, dir: &Path, report: &Path, history: &Path) -> bool {
     let exe = std::env::current_exe().unwrap();
     let st = std::process::Command::new(exe)
         .args([
@@ -344,6 +432,8 @@ fn spawn_child(plan_path: &Path, seg: usize, first_index: u64, offset_ms: u64, d
             dir.to_str().unwrap(),
             "--report",
             report.to_str().unwrap(),
+            "--history",
+            history.to_str().unwrap(),
         ])
         .stdout(std::process::Stdio::null())
         .stderr(std::process::Stdio::null())
@@ -410,9 +500,61 @@ struct Tracker {
     cas_in_batch_after_write: u64,
     replays: u64,
     restart_marks: Vec<(usize, String)>,
+    /// a snapshot was installed earlier in this plan (C16 attribution of later differences)
+    installed: bool,
+    /// what was running when the latest incarnation was killed: ("install" | "chunk" | "none", crash point tag)
+    last_crash: (String, String),
 }
 
 impl Tracker {
+    /// C16: after installing the leader's snapshot the node holds exactly the state of a node that applied the
+    /// whole log up to the boundary, and reports the boundary as its applied index.
+    fn observe_install(&mut self, extra: &[Cmd], rec: &Value) {
+        let t = rec["wall_ms"].as_u64().unwrap_or(0);
+        self.o.lock().unwrap().trace("install", hs(&rec.to_string()), rec["last_applied"].as_u64().unwrap_or(0), t);
+        if !rec["ok"].as_bool().unwrap_or(false) {
+            self.violate("C16", "snapshot_install_failed", json!({"error": rec["error"]}));
+            return;
+        }
+        self.installed = true;
+        for c in extra {
+            if let Cmd::PutTtl { k, .. } = c {
+                self.ever_ttl.insert(key(*k));
+            }
+            model_apply(&mut self.model, c, t);
+            self.history.push((c.clone(), t));
+        }
+        let n = self.history.len() as u64;
+        if rec["boundary"].as_u64() != Some(n) {
+            self.violate("C16", "harness_boundary_mismatch", json!({"boundary": rec["boundary"], "history": n}));
+        }
+        if rec["last_applied"].as_u64() != Some(n) {
+            self.violate("C16", "applied_index_differs_from_snapshot_boundary", json!({"reported": rec["last_applied"], "boundary": n}));
+        }
+        if rec["snapshot_meta_index"].as_u64() != Some(n) {
+            self.violate("C16", "snapshot_metadata_differs_from_boundary", json!({"reported": rec["snapshot_meta_index"], "boundary": n}));
+        }
+        let state: BTreeMap<String, String> = serde_json::from_value(rec["state"].clone()).unwrap_or_default();
+        let st = s2b(&state);
+        let mut bad = Self::diff(&self.model, &st, t);
+        // a key whose TTL had expired and that the model dropped after a cleanup (or any observed absence) is back,
+        // still expired, in the leader's snapshot until the next cleanup there: not judged
+        bad.retain(|k| !(self.ever_ttl.contains(k) && !self.model.contains_key(k)));
+        if !bad.is_empty() {
+            self.violate(
+                "C16",
+                "installed_state_differs_from_full_apply",
+                json!({"keys": bad.iter().map(ks).collect::<Vec<_>>(), "boundary": n, "got": state, "ttl_key": bad.iter().any(|k| self.ever_ttl.contains(k)),
+                       "want": self.model.iter().map(|(k, v)| (ks(k), ks(&v.0))).collect::<BTreeMap<_, _>>(), "model_resynced_earlier": self.resynced}),
+            );
+        }
+        for k in [key(0), key(1), key(2)] {
+            if st.get(&k) != self.model.get(&k).map(|x| &x.0) {
+                self.adopt(&k, st.get(&k));
+            }
+        }
+    }
+
     fn violate(&self, p: &str, kind: &str, mut w: Value) {
         w["engine"] = json!(self.engine);
         self.o.lock().unwrap().violate(p, kind, w);
@@ -629,6 +771,17 @@ impl Tracker {
             let bad = Self::diff(&m, got, now);
             if !bad.is_empty() {
                 let full_bad = Self::diff(&self.model, got, now);
+                if self.installed {
+                    self.violate(
+                        "C16",
+                        "state_after_snapshot_install_and_restart_differs",
+                        json!({"restart": kind, "reported": a, "applied_before": n, "keys": bad.iter().map(ks).collect::<Vec<_>>(),
+                               "ttl_key": bad.iter().any(|k| self.ever_ttl.contains(k)), "got": b2s(got),
+                               "killed_during": self.last_crash.0, "crash_point": self.last_crash.1,
+                               "matches_full_state": Self::diff(&self.model, got, now).is_empty(),
+                               "want_for_reported": m.iter().map(|(k, v)| (ks(k), ks(&v.0))).collect::<BTreeMap<_, _>>()}),
+                    );
+                }
                 self.violate(
                     "C15",
                     "state_not_matching_applied_index",
@@ -658,6 +811,16 @@ impl Tracker {
             }
         }
         let bad = Self::diff(&self.model, got, now);
+        if (!ok || !bad.is_empty()) && self.installed {
+            self.violate(
+                "C16",
+                "install_plus_replay_differs_from_full_apply",
+                json!({"restart": kind, "reported": a, "applied_before": n, "reapplied_ok": ok, "keys": bad.iter().map(ks).collect::<Vec<_>>(),
+                       "ttl_key": bad.iter().any(|k| self.ever_ttl.contains(k)), "got": b2s(got),
+                       "killed_during": self.last_crash.0, "crash_point": self.last_crash.1,
+                       "want": self.model.iter().map(|(k, v)| (ks(k), ks(&v.0))).collect::<BTreeMap<_, _>>()}),
+            );
+        }
         if !ok || !bad.is_empty() {
             self.violate(
                 "C15",
@@ -713,9 +876,12 @@ fn run_parent(plan: SmPlan) -> Value {
         cas_in_batch_after_write: 0,
         replays: 0,
         restart_marks: Vec::new(),
+        installed: false,
+        last_crash: ("none".into(), "".into()),
     };
     let mut offset_ms: u64 = 0;
     let (mut crashes, mut gracefuls, mut chunks, mut cleanups) = (0u64, 0u64, 0u64, 0u64);
+    let mut installs = 0u64;
     let mut crash_points: BTreeMap<String, u64> = BTreeMap::new();
     let mut harness_error: Option<String> = None;
     let base_ms = (crate::seams::WALL_BASE_NS / 1_000_000) as u64;
@@ -723,7 +889,9 @@ fn run_parent(plan: SmPlan) -> Value {
     for (si, seg) in plan.segments.iter().enumerate() {
         let report = root.join(format!("report-{si}.json"));
         let first_index = tr.history.len() as u64 + 1;
-        if !spawn_child(&plan_path, si, first_index, offset_ms, &dir, &report) {
+        let hist_path = root.join(format!("history-{si}.json"));
+        std::fs::write(&hist_path, serde_json::to_string(&tr.history).unwrap()).unwrap();
+        if !spawn_child(&plan_path, si, first_index, offset_ms, &dir, &report, &hist_path) {
             harness_error = Some("child spawn failed".into());
             break;
         }
@@ -764,6 +932,10 @@ fn run_parent(plan: SmPlan) -> Value {
                     cleanups += 1;
                     tr.observe_cleanup(rec);
                 }
+                SOp::Install { extra } => {
+                    installs += 1;
+                    tr.observe_install(extra, rec);
+                }
             }
             if let Some(t) = rec["wall_ms"].as_u64() {
                 offset_ms = offset_ms.max(t.saturating_sub(base_ms));
@@ -771,9 +943,26 @@ fn run_parent(plan: SmPlan) -> Value {
         }
         if crashed_at.is_some() && rep.ops.len() < seg.ops.len() && !rep.open.is_null() {
             // the op that was running when the process died: its entries are in the node's log
-            if let SOp::Chunk { cmds } = &seg.ops[rep.ops.len()] {
-                tr.inflight(cmds, base_ms + offset_ms);
+            tr.last_crash = (
+                match &seg.ops[rep.ops.len()] {
+                    SOp::Chunk { .. } => "chunk".to_string(),
+                    SOp::Install { .. } => "install".to_string(),
+                    _ => "other".to_string(),
+                },
+                crashed_at.clone().unwrap_or_default(),
+            );
+            match &seg.ops[rep.ops.len()] {
+                SOp::Chunk { cmds } => tr.inflight(cmds, base_ms + offset_ms),
+                // the leader's extra entries are committed entries: the node gets them from the snapshot or the log
+                SOp::Install { extra } => {
+                    tr.installed = true;
+                    tr.inflight(extra, base_ms + offset_ms)
+                }
+                _ => {}
             }
+        }
+        if !(crashed_at.is_some() && rep.ops.len() < seg.ops.len() && !rep.open.is_null()) {
+            tr.last_crash = ("none".into(), crashed_at.clone().unwrap_or_default());
         }
         if seg.end == End::Last {
             break;
@@ -822,13 +1011,13 @@ fn run_parent(plan: SmPlan) -> Value {
     let og = o.lock().unwrap();
     let mut res = json!({
         "seed": plan.seed, "scenario": plan.mode, "vtime_ms": offset_ms, "oracle": og.summary(),
-        "nontrivial": chunks > 0 && (plan.mode == "c22" || crashes + gracefuls > 0),
+        "nontrivial": chunks > 0 && (plan.mode == "c22" || crashes + gracefuls > 0) && (plan.mode != "c16" || installs > 0),
         "event_seq": og.trace_len,
         "stats": {"crashes": crashes, "graceful_restarts": gracefuls, "chunks": chunks, "cleanups": cleanups, "commands": tr.history.len(),
                   "ttl_expiry_checks": tr.ttl_expiry_checks, "ttl_survival_checks": tr.ttl_survival_checks,
-                  "cas_after_write_in_same_batch": tr.cas_in_batch_after_write, "replays_after_restart": tr.replays},
+                  "cas_after_write_in_same_batch": tr.cas_in_batch_after_write, "replays_after_restart": tr.replays, "snapshot_installs": installs},
         "crash_points_hit": crash_points,
-        "faults_fired": {"child_abort_crash": crashes, "child_abort_inside_engine_write": crash_points.values().sum::<u64>(), "graceful_restart": gracefuls, "wall_clock_advance_while_down": plan.segments.iter().filter(|s| s.down_ms > 0 && s.end != End::Last).count()},
+        "faults_fired": {"child_abort_crash": crashes, "child_abort_inside_engine_write": crash_points.values().sum::<u64>(), "graceful_restart": gracefuls, "snapshot_install": installs, "wall_clock_advance_while_down": plan.segments.iter().filter(|s| s.down_ms > 0 && s.end != End::Last).count()},
         "plan_summary": {"engine": plan.engine, "segments": plan.segments.len()},
         "sample": plan.segments.iter().take(2).map(|s| format!("{:?}", s)).collect::<Vec<_>>(),
     });
